@@ -351,4 +351,4 @@ def main(run: common.Run):
 
 
 if __name__ == "__main__":
-    common.guarded_main("C15", "proof", main)
+    common.guarded_main("C15", "proof", main, generic_replay=True)
